@@ -7,6 +7,14 @@ ROOT = os.path.dirname(os.path.dirname(os.path.abspath(__file__)))
 ALL = ['C%02d' % i for i in range(1, 20)]
 
 CHECKS = {
+    'C01': dict(
+        text='Intrinsic totality oracle (permitted outcome types, 1..11 located errors, list of pickles, envelope kinds, call counters) on every '
+             'document of four bounded-exhaustive spaces run directly on the implementation: lines from every control state, error-cap families, all strings over '
+             'adversarial character alphabets in six kinds of slot, every Unicode scalar value in one-character slots (thorough; predicate-boundary code points in quick), '
+             'plus exact linearity of line-matching operations on growth families.',
+        note='Inputs longer than the bounds or outside the alphabets are not covered; the known finding D1 (text naming an existing path) is listed in known_findings.json.',
+        technique='bounded exhaustive enumeration of inputs run on the implementation with an invariant oracle and operation counters',
+        ref='2/C01', engine='E4'),
     'C02': dict(
         text='Exact decision on the finite automaton (product of the gherkin.berp subset automaton with the transition function extracted '
              'from the running parser, carrying the open-rule stack: language equality and derivation for every length), explicit-state BFS '
